@@ -419,6 +419,26 @@ func rulesTagTable(c *Ctx, r *Report) {
 		pos    token.Pos
 	}
 	var R []rEntry
+	// the type switch may live in a helper of parseTags that returns the typed value
+	letterCompares := func(g *ssa.Function) int {
+		n := 0
+		instrs(g, func(in ssa.Instruction) {
+			if bo, ok := in.(*ssa.BinOp); ok && bo.Op == token.EQL {
+				if l, ok := constStr(bo.Y); ok && len(l) == 1 {
+					n++
+				}
+			}
+		})
+		return n
+	}
+	if letterCompares(rf) == 0 {
+		for _, g := range c.calleesIn(rf) {
+			if g.Blocks != nil && c.inModule(g) && letterCompares(g) >= 3 {
+				rf = g
+				r.analysed(fname(g))
+			}
+		}
+	}
 	instrs(rf, func(in ssa.Instruction) {
 		bo, ok := in.(*ssa.BinOp)
 		if !ok || bo.Op != token.EQL {
@@ -443,6 +463,13 @@ func rulesTagTable(c *Ctx, r *Report) {
 				case *ssa.MapUpdate:
 					if mi, ok := x.Value.(*ssa.MakeInterface); ok {
 						e.t = mi.X.Type()
+					}
+				case *ssa.Return:
+					// a helper that returns (value, nil)
+					if ops := retOperands(x); len(ops) == 2 && isNilConst(ops[1]) {
+						if mi, ok := ops[0].(*ssa.MakeInterface); ok {
+							e.t = mi.X.Type()
+						}
 					}
 				case *ssa.Call:
 					if x.Call.StaticCallee() != nil {
